@@ -529,7 +529,9 @@ func (st *Runtime) executeList(list *ListNode) (returnValue reflect.Value) {
 						}
 					}
 					if valVarSlot < 0 {
-						st.context = rangeValue
+						// an element held in an interface{} is '.' as the value itself
+						// (as for variables), so that its truthiness and kind are the value's
+						st.context = indirectEface(rangeValue)
 					}
 					loopValue = st.executeList(node.List)
 					indexValue, rangeValue, end = ranger.Range()
